@@ -284,3 +284,16 @@ REG.axiom_hooks.append(literal_axioms)
 def holds(ex, st, c, w):
     """the (abstract) constraint c is true in the world w (an assignment of runtime values to the program's variables)"""
     return S_bool(uf("cons_holds", V, V, BoolS)(box(c, st), box(w, st)))
+
+
+@spec_function()
+def plain_value(ex, st, v):
+    """operand precondition of unite_values: a well-formed (never nested) union / annotated union without AnyValue(unreachable) members"""
+    c = ex.reg.contracts["pyanalyze.value.unite_values"]
+    t = box(v, st)
+    # evaluate unite_values' own requires clauses on the one-element operand tuple (v,)
+    tup = Sym("seq", Q.Literal(st, [t]), None)
+    out = []
+    for cl in c.requires_:
+        out.append(ex.spec_bool(cl, st, {"values": tup}, module=ex.contract_module(c)))
+    return S_bool(z3.And(*out) if out else z3.BoolVal(True))
